@@ -1,18 +1,70 @@
-(* Model side of the block-file storage checks (C17): extracted SerStore. *)
+(* Model side of the block-file storage checks (C17): extracted SerStore (+ SerTx for blocks). *)
 open Conv
 module M = Model
+
+let rec take n l = if n <= 0 then [] else match l with x :: r -> x :: take (n - 1) r | [] -> []
+let rec drop n l = if n <= 0 then l else match l with _ :: r -> drop (n - 1) r | [] -> []
+
+(* the record in a slice of the plaintext block file that starts 8 bytes before the payload *)
+let rec_parts slice =
+  let magic = take 4 slice in
+  let size = match drop 4 slice with a :: b :: c :: d :: _ -> int_of_n a + 256 * (int_of_n b + 256 * (int_of_n c + 256 * int_of_n d)) | _ -> 0 in
+  let payload = take size (drop 8 slice) in
+  (magic, size, payload)
+
+let rec_model slice rel_off mask =
+  let (magic, _, payload) = rec_parts slice in
+  let orig_header = take 80 payload in
+  let file = M.flip_byte slice (nat_of_int rel_off) (n_of_int mask) in
+  let header_ok h = M.bytes_eq (M.ser_header h) orig_header in
+  let raw = M.read_raw_block magic file (z_of_int 8) in
+  let blk = M.read_block header_ok magic file (z_of_int 8) in
+  (match raw with Some d -> "raw=ok:" ^ hex_of_bytes d | None -> "raw=err") ^ (if blk then " blk=1" else " blk=0")
 
 let model _ l = match words l with
   | ["obf"; key; off; mis; data] ->
     hex_of_bytes (M.obfuscate (bytes_of_hex key) (z_of_string off) (z_of_string mis) (bytes_of_hex data))
+  | ["rec"; _; slice; _; rel_off; mask] -> rec_model (bytes_of_hex slice) (int_of_string rel_off) (int_of_string mask)
+  | ["undo"; _; usize; rel_off; mask] ->
+    if M.undo_read_ok_after_flip (z_of_string usize) (z_of_string rel_off) (n_of_string mask) then "undo=1" else "undo=0"
   | _ -> "BADCASE"
 
-(* the property's predicate for the obfuscation layer: the result does not depend on the buffer's
-   address and is the key stream XOR (extracted xor_stream), so applying it twice restores the data *)
-let holds _ c impl = match words c with
+(* C17's own predicate on what the implementation returned.
+   obf:  the bytes are data XOR key stream (extracted xor_stream; address independence / involution follow)
+   rec:  uncorrupted record: ReadRawBlock returns exactly the stored payload and ReadBlock succeeds;
+         corrupted magic, or size field above MAX_SIZE: both reads must fail; corrupted header byte:
+         ReadBlock must fail (the header no longer hashes to the indexed block); other corruptions:
+         the implementation must do what the reference reader does
+   undo: uncorrupted: ReadBlockUndo succeeds; a flipped payload or checksum byte: it must fail *)
+let max_size = 33554432
+let holds args c impl =
+  let same () = if model args c = impl then "ok" else "fail differs from the reference reader: expected " ^ model args c in
+  match words c with
   | ["obf"; key; off; _; data] ->
     let spec = hex_of_bytes (M.xor_stream (bytes_of_hex key) (z_of_string off) (bytes_of_hex data)) in
     if spec = impl then "ok" else "fail obfuscated bytes are not data XOR key stream: expected " ^ spec
+  | ["rec"; _; slice; _; rel_off; mask] ->
+    let sl = bytes_of_hex slice in
+    let (_, size, payload) = rec_parts sl in
+    let ro = int_of_string rel_off and mk = int_of_string mask in
+    if mk = 0 then
+      (if impl = "raw=ok:" ^ hex_of_bytes payload ^ " blk=1" then "ok" else "fail stored block is not read back byte for byte")
+    else if ro < 4 then (if impl = "raw=err blk=0" then "ok" else "fail corrupted record magic not reported as a read failure")
+    else if ro < 8 then
+      (let file = M.flip_byte sl (nat_of_int ro) (n_of_int mk) in
+       let (_, size', _) = rec_parts file in
+       if size' > max_size then (if impl = "raw=err blk=0" then "ok" else "fail size field above MAX_SIZE not reported as a read failure")
+       else same ())
+    else if ro < 88 && ro < 8 + size then
+      (match words impl with
+       | [_; "blk=0"] -> same ()
+       | _ -> "fail a block whose stored header was corrupted was returned by ReadBlock")
+    else same ()
+  | ["undo"; _; usize; rel_off; mask] ->
+    let us = int_of_string usize and ro = int_of_string rel_off and mk = int_of_string mask in
+    if mk = 0 then (if impl = "undo=1" then "ok" else "fail stored undo data is not read back")
+    else if ro >= 8 && ro < 8 + us + 32 then (if impl = "undo=0" then "ok" else "fail corrupted undo record not reported as a read failure")
+    else same ()
   | _ -> "na"
 
 let () = main_loop ~model ~holds
